@@ -390,6 +390,14 @@ func RunC03(args []string) *rep.Report {
 							}
 						}
 					}
+					// the publisher's handler is gone (removed by the caller, or by the idle cleaner) and the caller gives no address: the
+					// subscriber goes to the address it remembers for that publisher -- and still expects the identity it was asked for
+					sub.RemoveHandler(expected)
+					hs.set(enc)
+					if _, serr := sub.SyncAdChain(ctx, peer.AddrInfo{ID: expected}); serr == nil || sub.GetLatestSync(expected) != nil || len(hs.afterHead()) != 0 {
+						diverge("rejected-head-acted-on", fmt.Sprintf("SyncAdChain without addresses after the handler was removed: err=%v latest=%v", serr, sub.GetLatestSync(expected)), nil)
+					}
+					syncs++
 					// the address names the identity that signed the response (/p2p/<signer>) while the caller expects another
 					// publisher: the caller's expectation decides
 					if signer := ids.PeerT(hc.Case.Pub, kt); signer != expected {
